@@ -325,18 +325,37 @@ CLAIMED = {
              "instance is Ip/IpModel.v via coq/ZoneFile/ZfInstance.v).",
         design="5/C11", technique="Coq proof over executable model + model/impl correspondence (extraction)"),
     "C13": dict(
-        text="Escape-level theorem about the Gallina models of zones/serialise.rs and the tokeniser: escape_roundtrip -- the text "
-             "serialise_octets writes for ANY octet string (all 256 octets, quoted or unquoted) is tokenised back to exactly that "
-             "octet string, alone or inside any entry of the layout family -- and serialise_octets writes printable ASCII only. "
-             "The zone-level theorem (zone_roundtrip, normalise_idempotent) is NOT yet proved; whole-zone round trips are checked "
-             "by the correspondence stream: zones parsed from generated text (labels over all ASCII octets but '.', RDATA over all "
-             "256 octets, authoritative or not, root and non-root apex, wildcard and apex records) and zones built through "
-             "Zone::new/insert/insert_wildcard are serialised and re-parsed by the real code (equal zone, idempotent text), the "
-             "serialiser model is compared with the real serialiser text, and the real ztoz binary is run twice on generated files.",
+        text="Theorems about the Gallina models of zones/serialise.rs and zones/deserialise.rs (Properties/C13.v). Escape level: "
+             "escape_roundtrip -- the text serialise_octets writes for ANY octet string (all 256 octets, quoted or not) is "
+             "tokenised back to exactly that octet string, alone or inside any entry of the layout family; only printable ASCII is "
+             "written. Zone level, PROVED: relative_name_roundtrip (what serialise_domain writes -- relative to the apex, '@', or "
+             "the absolute fall-backs: root apex, not authoritative, outside the apex, relative part exactly '@' -- is read back "
+             "as the same name under the origin in force; ordinary owner unless the leftmost label is '*', '*.' + text = the "
+             "wildcard); zone_roundtrip -- for every BUILT zone (Zone::new + insert/insert_wildcard; apex root or SOA present; "
+             "apex, owners and RDATA names well formed with ASCII dot-free labels; leftmost label of the apex and of ordinary "
+             "owners not the single octet '*'; the 18 known types other than SOA for inserted records; RDATA well shaped, "
+             "u16/u32/TTL in range, octet strings of octets) and every ADMISSIBLE record order (names in any order, the type "
+             "groups under a name in any order or interleaved, order inside a type group kept -- any HashMap iteration order; "
+             "the model's own all_records order is proved admissible) deserialise(serialise z) = Ok z' with z' the same zone: "
+             "same apex, same SOA, same nodes, and at every node for every type the same lists of ordinary and wildcard "
+             "records (data, TTLs, order); normalise_idempotent -- z' written in the order of the first pass gives the very "
+             "same text, and written in any order admissible for it and read again is the same zone; loaded_built -- every "
+             "zone Zone::deserialise returns is a built zone (labels any ASCII octet but '.', lower-cased; ordinary owners "
+             "never have leftmost label '*' since fix 0286676), hence loaded_roundtrip and ztoz-twice. The address codec "
+             "(std's Ipv4Addr/Ipv6Addr Display/FromStr, outside /repo) enters through two hypotheses (Display then FromStr is "
+             "the identity and writes plain characters; FromStr yields values in range), both PROVED for the codec model of "
+             "Ip/IpModel.v the drivers run with, so the instance theorems C13_zone_roundtrip_zf / C13_ztoz_twice_zf assume "
+             "nothing. The correspondence stream ties the models to the real code: zones parsed from generated text and zones "
+             "built through the API are serialised and re-parsed by the real code (equal zone, idempotent text), the serialiser "
+             "model is compared with the real serialiser text, and the real ztoz binary is run twice on generated files.",
         note="Outside the property as scoped in DESIGN D5/D7: non-root apex without SOA, Unknown-type records, SOA-type records "
-             "pushed through insert() (the serialiser skips them), labels containing '.', non-ASCII labels, labels starting with '*' "
-             "built through the API. HashMap order of type groups is canonicalised (stable sort of a block's lines by owner and type).",
-        design="5/C13", technique="Coq proof over executable model (escape level) + model/impl correspondence (extraction) + real ztoz binary"),
+             "pushed through insert() (the serialiser skips them), labels containing '.', non-ASCII labels, an ordinary owner (or "
+             "apex) whose leftmost label is exactly '*' built through the API (such an owner IS the wildcard syntax). Found while "
+             "proving and fixed in /repo (0286676, known_findings class star-owner-via-origin): '@' under '$ORIGIN *.x' used to "
+             "load an ordinary record at '*.x', which did not round-trip. Not proved: that the model's own second-pass text is "
+             "literally the first-pass text (needs the insertion order of the type maps; checked by the stream: 'true,true'). "
+             "HashMap order of type groups is canonicalised in the stream (stable sort of a block's lines by owner and type).",
+        design="5/C13", technique="Coq proof over executable model + model/impl correspondence (extraction) + real ztoz binary"),
     "C17": dict(
         text="Zone-file part: theorems about the Gallina model of zones/deserialise.rs and of the tree insertion of zones/types.rs, "
              "for EVERY list of Unicode scalar values and every address codec: the tokeniser and the whole parser return Ok or Err, "
